@@ -170,8 +170,8 @@ M('c12-assign-copy-one-branch', 'C12', 'C12.R1', AST, ASG,
 M('c12-setitem-second-store', 'C12', None, FUN, "    container[key] = copy.deepcopy(value)\n    return value",
   "    container[key] = copy.deepcopy(value)\n    container['_last'] = value\n    return value")
 M('c12-shortop-plus-raw', 'C12', 'C12.R1', AST,
-  "        value = copy.deepcopy(self.value.eval(state))\n\n        if self.op == '+=':\n            state.names[self.name] += value",
-  "        raw = self.value.eval(state)\n        value = copy.deepcopy(raw)\n\n        if self.op == '+=':\n            state.names[self.name] += raw")
+  "        value = copy.deepcopy(self.value.eval(state))\n\n        try:\n            if self.op == '+=':\n                state.names[self.name] += value",
+  "        raw = self.value.eval(state)\n        value = copy.deepcopy(raw)\n\n        try:\n            if self.op == '+=':\n                state.names[self.name] += raw")
 M('c12-same-copy-twice', 'C12', 'C12.R2', AST, ASG,
   "        c = copy.deepcopy(value)\n        state.names[self.name] = c\n        state.names['_'] = c")
 
@@ -292,3 +292,44 @@ B('c11-reset-helper', 'C11', edits=[
 B('c11-input-before-resets', 'C11', SQP,
   "        self.lex.lexpos = 0\n        self.lex.lineno = 1\n        self.lex.paren_count = 0\n\n        self.lex.input(expr)",
   "        self.lex.input(expr)\n        self.lex.lineno = 1\n        self.lex.paren_count = 0")
+
+
+# =============================================================================== C16
+M('c16-perror-none-deref', 'C16', 'C16.R1', RUL,
+  "    if p is None:\n        raise ParserError('Syntax error: unexpected end of input')\n\n", "")
+M('c16-perror-returns', 'C16', 'C16.R1', RUL,
+  "    if p is None:\n        raise ParserError('Syntax error: unexpected end of input')", "    if p is None:\n        return")
+M('c16-perror-valueerror', 'C16', 'C16.R1', RUL,
+  "    if p is None:\n        raise ParserError('Syntax error: unexpected end of input')", "    if p is None:\n        raise ValueError('unexpected end of input')")
+M('c16-terror-skips', 'C16', 'C16.R2', LEX, "    raise ParserError(f'Illegal character {t.value[0]}')", "    t.lexer.skip(1)")
+M('c16-reserved-word-accepted', 'C16', 'C16.R3', RUL, "    raise ParserError(f'{p[1]} is reserved keyword')", "    p[0] = NoOp()")
+M('c16-reserved-word-syntaxerror', 'C16', 'C16.R3', RUL, "    raise ParserError(f'{p[1]} is reserved keyword')", "    raise SyntaxError(f'{p[1]} is reserved keyword')")
+M('c16-shortop-unguarded', 'C16', 'C16.R4', AST, "        except LookupError:\n            raise ParserError(f'Undefined variable {self.name}')\n\n        return None",
+  "        except ZeroDivisionError:\n            raise ParserError(f'Division by zero in {self.name}')\n\n        return None")
+M('c16-nameop-keyerror-only-reraise', 'C16', 'C16.R4', AST,
+  "        except LookupError:\n            raise ParserError(f'Undefined variable {self.name}')\n\n        return value", "        except LookupError:\n            raise\n\n        return value")
+M('c16-callop-swallows-lookup', 'C16', 'C16.R4', AST,
+  "        except LookupError:\n            raise ParserError(f'Undefined function {self.name}')", "        except LookupError:\n            return None")
+M('c16-getitem-unguarded', 'C16', 'C16.R5', FUN,
+  "    try:\n        return container[key]\n    except LookupError:\n        raise ParserError(f'Key error \\'{key}\\'')", "    return container[key]")
+M('c16-getitem-keyerror-only', 'C16', 'C16.R5', FUN,
+  "    try:\n        return container[key]\n    except LookupError:", "    try:\n        return container[key]\n    except KeyError:")
+M('c16-pop-unguarded', 'C16', 'C16.R5', FUN,
+  "    try:\n        return arr.pop(int(i)) if i is not None else arr.pop()\n    except IndexError as e:\n        raise ParserError(str(e))",
+  "    return arr.pop(int(i)) if i is not None else arr.pop()")
+M('c16-setwithop-unguarded', 'C16', 'C16.R5', FUN, "    except LookupError:\n        raise ParserError(f'Key error \\'{key}\\'')\n\n    return value", "    finally:\n        pass\n\n    return value")
+M('c16-sizecap-valueerror', 'C16', 'C16.R6', FUN, "        raise ParserError(f'Array size overflow: {MAX_ARRAY_SIZE}')", "        raise ValueError(f'Array size overflow: {MAX_ARRAY_SIZE}')")
+M('c16-ops-limit-systemexit', 'C16', None, AST, "            raise OpsExecutionLimitExceededError(f'Ops", "            raise SystemExit(f'Ops")
+M('c16-parsererror-baseexception', 'C16', 'C16.R7', 'smartquery/exceptions.py', "class ParserError(Exception):", "class ParserError(BaseException):")
+M('c16-sys-exit-on-limit', 'C16', 'C16.R7', edits=[
+  (FUN, "import random\n", "import random\nimport sys\n"),
+  (FUN, "        raise ParserError(f'Array size overflow: {MAX_ARRAY_SIZE}')", "        sys.exit(f'Array size overflow: {MAX_ARRAY_SIZE}')")])
+
+B('c16-perror-isnot-none', 'C16', RUL,
+  "    if p is None:\n        raise ParserError('Syntax error: unexpected end of input')\n\n    raise ParserError(f'Syntax error: {p.value} at line {p.lexer.lineno}')",
+  "    if p is not None:\n        raise ParserError(f'Syntax error: {p.value} at line {p.lexer.lineno}')\n    raise ParserError('Syntax error: unexpected end of input')")
+B('c16-nameop-keyerror', 'C16', AST,
+  "        except LookupError:\n            raise ParserError(f'Undefined variable {self.name}')\n\n        return value", "        except KeyError:\n            raise ParserError(f'Undefined variable {self.name}')\n\n        return value")
+B('c16-getitem-two-classes', 'C16', FUN,
+  "    try:\n        return container[key]\n    except LookupError:", "    try:\n        return container[key]\n    except (KeyError, IndexError):")
+B('c16-pop-catches-lookuperror', 'C16', FUN, "    except IndexError as e:\n        raise ParserError(str(e))\n\n\ndef _sorted", "    except LookupError as e:\n        raise ParserError(str(e))\n\n\ndef _sorted")
